@@ -161,6 +161,8 @@ class _Builder:
     # ------------------------------------------------------------ conditions
     def cond(self, test: ast.expr, fr: Frontier, ctx: _Ctx) -> tuple[Frontier, Frontier]:
         """Returns (true frontier, false frontier)."""
+        while isinstance(test, ast.Call) and isinstance(test.func, ast.Name) and test.func.id == "bool" and len(test.args) == 1 and not test.keywords:
+            test = test.args[0]  # bool(E) in a test position is E
         if isinstance(test, ast.BoolOp):
             if isinstance(test.op, ast.And):
                 falses: Frontier = []
